@@ -86,6 +86,9 @@ pub enum Pay {
     ExtraCoin,
     /// the exact deposit coin listed twice in the funds (cw20 deposits: as Exact)
     Twice,
+    /// the exact amount in the bank denomination that differs from the deposit's in letter case only - another
+    /// token (cw20 deposits: no payment)
+    CaseDenom,
 }
 
 #[derive(Clone, Copy, Debug, Serialize, Deserialize, PartialEq)]
@@ -280,7 +283,7 @@ fn pmsgs(prop: &str) -> BoxedStrategy<Vec<PMsg>> {
 
 fn pay(prop: &str) -> BoxedStrategy<Pay> {
     if prop == "C15" {
-        prop_oneof![12 => Just(Pay::Exact), 2 => Just(Pay::None), 2 => Just(Pay::Short), 2 => Just(Pay::Excess), 1 => Just(Pay::WrongDenom), 1 => Just(Pay::ExtraCoin), 1 => Just(Pay::Twice)].boxed()
+        prop_oneof![12 => Just(Pay::Exact), 2 => Just(Pay::None), 2 => Just(Pay::Short), 2 => Just(Pay::Excess), 1 => Just(Pay::WrongDenom), 1 => Just(Pay::ExtraCoin), 1 => Just(Pay::Twice), 1 => Just(Pay::CaseDenom)].boxed()
     } else {
         // a quarter of the flex multisigs of the other properties require a deposit too; it is mostly paid
         prop_oneof![8 => Just(Pay::Exact), 1 => Just(Pay::None)].boxed()
@@ -801,6 +804,7 @@ pub fn run_mcase(prop: &str, case: &MCase, ctx: &mut CaseCtx) -> Result<(), Viol
     let dep_amount = deposit.map(|d| d.amount).unwrap_or(10);
     for a in &actors {
         mint(&mut app, a, DEP_DENOM, dep_amount * 3 + 2);
+        mint(&mut app, a, &DEP_DENOM.to_uppercase(), dep_amount * 3 + 2);
         mint(&mut app, a, SPEND_DENOM, 5);
     }
     mint(&mut app, &faucet, SPEND_DENOM, 1_000_000);
@@ -1227,6 +1231,7 @@ pub fn run_mcase(prop: &str, case: &MCase, ctx: &mut CaseCtx) -> Result<(), Viol
                             Pay::WrongDenom => funds = coins(d.amount.min(5), SPEND_DENOM),
                             Pay::ExtraCoin => funds = vec![Coin::new(d.amount, DEP_DENOM), Coin::new(1u128, SPEND_DENOM)],
                             Pay::Twice => funds = vec![Coin::new(d.amount, DEP_DENOM), Coin::new(d.amount, DEP_DENOM)],
+                            Pay::CaseDenom => funds = coins(d.amount, DEP_DENOM.to_uppercase()),
                         }
                     }
                 }
@@ -2200,7 +2205,7 @@ pub fn decode_mcase(prop: &str, u: &mut arbitrary::Unstructured) -> MCase {
                     3 => Latest::AtMax(arb_below(u, 5) as i8 - 2),
                     _ => Latest::None,
                 };
-                let pay = if prop == "C15" { [Pay::Exact, Pay::Exact, Pay::Exact, Pay::None, Pay::Short, Pay::Excess, Pay::WrongDenom, Pay::ExtraCoin, Pay::Twice][arb_below(u, 9)] } else if arb_bool(u, 1, 9) { Pay::None } else { Pay::Exact };
+                let pay = if prop == "C15" { [Pay::Exact, Pay::Exact, Pay::Exact, Pay::None, Pay::Short, Pay::Excess, Pay::WrongDenom, Pay::ExtraCoin, Pay::Twice, Pay::CaseDenom][arb_below(u, 10)] } else if arb_bool(u, 1, 9) { Pay::None } else { Pay::Exact };
                 Op::Propose { by: d_by(u), msgs, latest, pay }
             }
             3..=7 => Op::Vote { by: d_by(u), prop: d_target(u), vote: [0u8, 0, 0, 1, 1, 2, 3][arb_below(u, 7)] },
